@@ -100,6 +100,9 @@ VALUE_EXPRS = [
     "stringNew(arrayNew(nn, objectNew('a', nn)))", "arrayPush(arrayNew(1), nn)", "objectSet(objectNew(), 'a', nn)",
     "arraySort(arrayNew(3, nn, 1))", "numberParseFloat(stringNew(nn))", "mathRound(nn / 3, 2)", "dataSort(arrayNew(objectNew('a', 2), objectNew('a', nn)), arrayNew(arrayNew('a')))",
     "dataAggregate(arrayNew(objectNew('a', nn), objectNew('a', 2)), objectNew('measures', arrayNew(objectNew('field', 'a', 'function', 'sum'))))",
+    # both operands are host numbers (no float literal involved): kk is 3, mk is -7, in the same spelling as nn
+    "nn % kk", "mk % kk", "mk % nn", "nn / kk", "nn ** kk", "nn - mk", "nn * mk", "mk + nn", "nn < kk", "mathFloor(mk / kk)", "arrayNew(nn, kk, mk)",
+    "stringNew(mk % kk)", "systemCompare(mk % kk, nn)",
 ]
 
 CORE_VAL = '''
@@ -109,13 +112,14 @@ from bare_script.runtime import BareScriptRuntimeError
 EXPR = {expr!r}
 MODEL = parse_script('return ' + EXPR)
 LO, HI = -3, 11
-BIG = [10 ** 12 + 123, 123456789012345, 2 ** 53, -(10 ** 14) + 1, 999999999999999]      # integral, |n| < 1e15
+BIG = [10 ** 12 + 123, 123456789012345, 2 ** 47 + 1, -(10 ** 14) + 1, 999999999999999]      # integral, |n| < 1e15 (the property's range)
 
 
 def _run(v):
     log = []
     try:
-        return ('ok', execute_script(MODEL, {{'globals': {{'nn': v}}, 'debug': True, 'logFn': log.append}})), len(log)
+        kk, mk = (3.0, -7.0) if isinstance(v, float) else (3, -7)
+        return ('ok', execute_script(MODEL, {{'globals': {{'nn': v, 'kk': kk, 'mk': mk}}, 'debug': True, 'logFn': log.append}})), len(log)
     except BareScriptRuntimeError as exc:
         return ('err', str(exc)), len(log)
 
@@ -128,6 +132,10 @@ def core_val(n):
             ni, nf = v, float(v)
     ri = _run(ni)
     rf = _run(nf)
+    a, b = ri[0][1], rf[0][1]
+    if ri != rf and ri[0][0] == rf[0][0] == 'ok' and ri[1] == rf[1] and isinstance(a, (int, float)) and isinstance(b, (int, float)) \
+            and not isinstance(a, bool) and not isinstance(b, bool) and abs(a) >= 1e15 and abs(a - b) <= abs(a) * 1e-12:
+        return True, {{}}          # a RESULT beyond 1e15: exact integer vs rounded double is outside the property's range
     if ri != rf:
         return False, {{'expr': EXPR, 'n': n, 'int_spelling': repr(ri)[:300], 'float_spelling': repr(rf)[:300]}}
     return True, {{}}
